@@ -5,7 +5,7 @@
    behaviour that is observed by the correspondence harness and not modelled. *)
 From Verif Require Import Base.Prelude Base.StrUtil Base.Index Base.NdArr Model.MapSpec Model.MapSpecSpec
   Model.MapRun Model.MapDenote Model.SymBody Model.XrLabel Model.XrLabelSpec
-  Proofs.StrFacts Proofs.MapSpecFacts Proofs.XrLabelFacts Corr.Run_C19.
+  Proofs.StrFacts Proofs.MapSpecFacts Proofs.XrLabelFacts Proofs.XrLabelCorr Corr.Run_C19.
 
 (* Hypotheses shared by the theorems (all enforced by Pipeline construction):
      NoDup (out_names specs)               every array is the output of at most one function,
@@ -127,6 +127,19 @@ Theorem C19_dataset_zipped_multiindex : forall specs inputs outputs li ds o ms k
 Proof. exact dataset_zipped_multiindex. Qed.
 Print Assumptions C19_dataset_zipped_multiindex.
 
+(* "whose values equal the map result" / "identical datasets", model side (by C01_map_run_denotes): for a
+   valid request the values that the model of the datasets shows for every output (Run_C19.run reads them
+   from the model of Pipeline.map, `outv`) are the denotation, and returned and stored values agree *)
+Theorem C19_values_are_denotation : forall c den,
+  request_ok (c_funcs c) (c_inputs c) = true ->
+  denote_run sym_body (c_funcs c) (c_inputs c) (c_internal c) = Ok den ->
+  exists st, map_run sym_body (c_funcs c) (c_inputs c) (c_internal c) = Ok st
+    /\ (forall n, option_map (fun x => snd (fst x)) (find (fun x => str_eqb (fst (fst x)) n) (r_out st))
+                  = dict_get (d_out den) n)
+    /\ forallb (fun x => val_eqb (snd (fst x)) (snd x)) (r_out st) = true.
+Proof. exact model_values_denote. Qed.
+Print Assumptions C19_values_are_denotation.
+
 (* selecting by coordinate value.  `sel_label` is the specification of label based selection on a
    one-dimensional coordinate (look the value up, slice the variable at the position found); the lookup
    itself is xarray's (observed by the harness on every coordinate value, not modelled).
@@ -237,7 +250,10 @@ Example C19_example_hypotheses :
   /\ dims_of ex_specs (s "w") = Ok [s "i"; s "j"]
   /\ (forall m a, In m ex_specs -> In a (outs m) -> no_colon_axes a)
   /\ is_ok (dataset_vars ex_specs inputs outputs true) = true
-  /\ computed_by ex_specs (s "r") <> None.
+  /\ computed_by ex_specs (s "r") <> None
+  /\ is_ok (trace_dep (trace_fuel ex_specs) ex_specs (s "r")) = true
+  /\ option_map ds_plain (match dataset_vars ex_specs inputs (outputs ++ [s "t"]) true with
+                          | Ok ds => Some ds | Err _ => None end) = Some [s "t"].
 Proof.
   cbv zeta. repeat split.
   - apply nodup_str_NoDup. reflexivity.
@@ -250,6 +266,11 @@ Proof.
     destruct Hm.
   - vm_compute. discriminate.
 Qed.
+
+Example C19_example_values : (* the witness request is valid: the hypotheses of C19_values_are_denotation hold *)
+  request_ok (c_funcs (zsel_witness 0)) (c_inputs (zsel_witness 0)) = true
+  /\ is_ok (denote_run sym_body (c_funcs (zsel_witness 0)) (c_inputs (zsel_witness 0)) (c_internal (zsel_witness 0))) = true.
+Proof. vm_compute. split; reflexivity. Qed.
 
 (* non-vacuity of the selection theorems: a 2x3 variable with distinct labels on its second dimension *)
 Example C19_example_sel :
